@@ -118,7 +118,7 @@ def build_drv(name, kind="plain", extra="", sources=None):
     os.makedirs(outdir, exist_ok=True)
     exe = os.path.join(outdir, name)
     srcs = [os.path.join(HARNESS, name + ".cc")] + (sources or [])
-    deps = srcs + glob.glob(os.path.join(HARNESS, "rt", "*")) + [lib]
+    deps = srcs + glob.glob(os.path.join(HARNESS, "rt", "*")) + glob.glob(os.path.join(HARNESS, "*.h")) + [lib]
     with Lock("drv-%s-%s" % (kind, name)):
         newest = max([os.stat(p).st_mtime for p in deps] + [_newest_repo_src()])
         stamp = exe + ".flags"
